@@ -47,7 +47,8 @@ type frame struct {
 	caller           *frame
 	fn               *ssa.Function
 	block, prevBlock *ssa.BasicBlock
-	env              map[ssa.Value]value
+	env              []value
+	slots            map[ssa.Value]int
 	locals           []value
 	defers           *deferred
 	result           value
@@ -69,10 +70,14 @@ func (fr *frame) get(key ssa.Value) value {
 	case *ssa.Global:
 		return fr.i.global(key)
 	}
-	if r, ok := fr.env[key]; ok {
-		return r
+	if k, ok := fr.slots[key]; ok {
+		return fr.env[k]
 	}
 	panic(fmt.Sprintf("get: no value for %T: %v", key, key.Name()))
+}
+
+func (fr *frame) set(key ssa.Value, v value) {
+	fr.env[fr.slots[key]] = v
 }
 
 func (i *interpreter) global(g *ssa.Global) *value {
@@ -184,54 +189,54 @@ func (i *interpreter) visitInstr(fr *frame, instr ssa.Instruction) continuation 
 		if px.inInit && instr.Op == token.MUL {
 			if p, ok := fr.get(instr.X).(*value); ok && p == nil {
 				px.noteInitTolerance(i, fr)
-				fr.env[instr] = zero(mustDeref(instr.X.Type()))
+				fr.set(instr, zero(mustDeref(instr.X.Type())))
 				break
 			}
 		}
-		fr.env[instr] = i.unop(fr, instr, fr.get(instr.X))
+		fr.set(instr, i.unop(fr, instr, fr.get(instr.X)))
 
 	case *ssa.BinOp:
-		fr.env[instr] = i.binop(instr.Op, instr.X.Type(), fr.get(instr.X), fr.get(instr.Y))
+		fr.set(instr, i.binop(instr.Op, instr.X.Type(), fr.get(instr.X), fr.get(instr.Y)))
 
 	case *ssa.Call:
 		if px.inInit && instr.Call.IsInvoke() {
 			if recv, ok := fr.get(instr.Call.Value).(iface); ok && recv.t == nil {
 				// package initialisers of std packages touching reflection: tolerated, result unused
 				if instr.Type() == nil || isEmptyTuple(instr.Type()) {
-					fr.env[instr] = nil
+					fr.set(instr, nil)
 				} else {
-					fr.env[instr] = zero(instr.Type())
+					fr.set(instr, zero(instr.Type()))
 				}
 				break
 			}
 		}
 		fn, args := i.prepareCall(fr, &instr.Call)
 		if px.inInit && fr.fn.Synthetic == "package initializer" && !i.prog.isRepoPkg(fr.fn) {
-			fr.env[instr] = i.tolerantInitCall(fr, instr, fn, args)
+			fr.set(instr, i.tolerantInitCall(fr, instr, fn, args))
 			break
 		}
-		fr.env[instr] = i.call(fr, instr.Pos(), fn, args)
+		fr.set(instr, i.call(fr, instr.Pos(), fn, args))
 
 	case *ssa.ChangeInterface:
-		fr.env[instr] = fr.get(instr.X)
+		fr.set(instr, fr.get(instr.X))
 
 	case *ssa.ChangeType:
-		fr.env[instr] = fr.get(instr.X)
+		fr.set(instr, fr.get(instr.X))
 
 	case *ssa.Convert:
-		fr.env[instr] = i.conv(instr.Type(), instr.X.Type(), fr.get(instr.X))
+		fr.set(instr, i.conv(instr.Type(), instr.X.Type(), fr.get(instr.X)))
 
 	case *ssa.SliceToArrayPointer:
-		fr.env[instr] = sliceToArrayPointer(instr.Type(), instr.X.Type(), fr.get(instr.X))
+		fr.set(instr, sliceToArrayPointer(instr.Type(), instr.X.Type(), fr.get(instr.X)))
 
 	case *ssa.MakeInterface:
-		fr.env[instr] = iface{t: instr.X.Type(), v: fr.get(instr.X)}
+		fr.set(instr, iface{t: instr.X.Type(), v: fr.get(instr.X)})
 
 	case *ssa.Extract:
-		fr.env[instr] = fr.get(instr.Tuple).(tuple)[instr.Index]
+		fr.set(instr, fr.get(instr.Tuple).(tuple)[instr.Index])
 
 	case *ssa.Slice:
-		fr.env[instr] = i.sliceOp(fr.get(instr.X), fr.get(instr.Low), fr.get(instr.High), fr.get(instr.Max))
+		fr.set(instr, i.sliceOp(fr.get(instr.X), fr.get(instr.Low), fr.get(instr.High), fr.get(instr.Max)))
 
 	case *ssa.Return:
 		switch len(instr.Results) {
@@ -293,15 +298,15 @@ func (i *interpreter) visitInstr(fr *frame, instr ssa.Instruction) continuation 
 		if n < 0 {
 			rtPanic("makechan: size out of range")
 		}
-		fr.env[instr] = px.sched.makeChan(instr.Type().Underlying().(*types.Chan).Elem(), int(n))
+		fr.set(instr, px.sched.makeChan(instr.Type().Underlying().(*types.Chan).Elem(), int(n)))
 
 	case *ssa.Alloc:
 		var addr *value
 		if instr.Heap {
 			addr = new(value)
-			fr.env[instr] = addr
+			fr.set(instr, addr)
 		} else {
-			addr = fr.env[instr].(*value)
+			addr = fr.env[fr.slots[instr]].(*value)
 		}
 		*addr = zero(mustDeref(instr.Type()))
 
@@ -312,16 +317,16 @@ func (i *interpreter) visitInstr(fr *frame, instr ssa.Instruction) continuation 
 		for k := range slice {
 			slice[k] = zero(tElt)
 		}
-		fr.env[instr] = slice[:n]
+		fr.set(instr, slice[:n])
 
 	case *ssa.MakeMap:
-		fr.env[instr] = makeOmap(instr.Type().Underlying().(*types.Map).Key())
+		fr.set(instr, makeOmap(instr.Type().Underlying().(*types.Map).Key()))
 
 	case *ssa.Range:
-		fr.env[instr] = i.rangeIter(fr.get(instr.X), instr.X.Type())
+		fr.set(instr, i.rangeIter(fr.get(instr.X), instr.X.Type()))
 
 	case *ssa.Next:
-		fr.env[instr] = fr.get(instr.Iter).(iter).next()
+		fr.set(instr, fr.get(instr.Iter).(iter).next())
 
 	case *ssa.FieldAddr:
 		p := fr.get(instr.X).(*value)
@@ -335,22 +340,22 @@ func (i *interpreter) visitInstr(fr *frame, instr ssa.Instruction) continuation 
 				rtPanic("invalid memory address or nil pointer dereference")
 			}
 		}
-		fr.env[instr] = &(*p).(structure)[instr.Field]
+		fr.set(instr, &(*p).(structure)[instr.Field])
 
 	case *ssa.Field:
-		fr.env[instr] = fr.get(instr.X).(structure)[instr.Field]
+		fr.set(instr, fr.get(instr.X).(structure)[instr.Field])
 
 	case *ssa.IndexAddr:
 		x := fr.get(instr.X)
 		idx := fr.get(instr.Index)
 		switch x := x.(type) {
 		case []value:
-			fr.env[instr] = i.indexAddr(x, idx)
+			fr.set(instr, i.indexAddr(x, idx))
 		case *value: // *array
 			if x == nil {
 				rtPanic("invalid memory address or nil pointer dereference")
 			}
-			fr.env[instr] = i.indexAddr((*x).(array), idx)
+			fr.set(instr, i.indexAddr((*x).(array), idx))
 		default:
 			panic(fmt.Sprintf("unexpected x type in IndexAddr: %T", x))
 		}
@@ -360,25 +365,25 @@ func (i *interpreter) visitInstr(fr *frame, instr ssa.Instruction) continuation 
 		idx := fr.get(instr.Index)
 		switch x := x.(type) {
 		case array:
-			fr.env[instr] = i.indexRead(x, idx, "array index")
+			fr.set(instr, i.indexRead(x, idx, "array index"))
 		case string:
 			if _, isS := idx.(sym); isS {
-				fr.env[instr] = i.indexRead(strBytes(x), idx, "string index")
+				fr.set(instr, i.indexRead(strBytes(x), idx, "string index"))
 			} else {
 				j := asInt64(idx)
 				if j < 0 || j >= int64(len(x)) {
 					rtPanic("index out of range [%d] with length %d", j, len(x))
 				}
-				fr.env[instr] = x[j]
+				fr.set(instr, x[j])
 			}
 		case symstring:
-			fr.env[instr] = i.indexRead(x.b, idx, "string index")
+			fr.set(instr, i.indexRead(x.b, idx, "string index"))
 		default:
 			panic(fmt.Sprintf("unexpected x type in Index: %T", x))
 		}
 
 	case *ssa.Lookup:
-		fr.env[instr] = i.lookup(instr, fr.get(instr.X), fr.get(instr.Index))
+		fr.set(instr, i.lookup(instr, fr.get(instr.X), fr.get(instr.Index)))
 
 	case *ssa.MapUpdate:
 		m := fr.get(instr.Map).(*omap)
@@ -388,14 +393,14 @@ func (i *interpreter) visitInstr(fr *frame, instr ssa.Instruction) continuation 
 		m.insert(i, copyVal(fr.get(instr.Key)), copyVal(fr.get(instr.Value)))
 
 	case *ssa.TypeAssert:
-		fr.env[instr] = typeAssert(i, instr, fr.get(instr.X).(iface))
+		fr.set(instr, typeAssert(i, instr, fr.get(instr.X).(iface)))
 
 	case *ssa.MakeClosure:
 		var bindings []value
 		for _, binding := range instr.Bindings {
 			bindings = append(bindings, fr.get(binding))
 		}
-		fr.env[instr] = &closure{instr.Fn.(*ssa.Function), bindings}
+		fr.set(instr, &closure{instr.Fn.(*ssa.Function), bindings})
 
 	case *ssa.Phi:
 		panic("unreachable: phis are processed at block entry")
@@ -423,7 +428,7 @@ func (i *interpreter) visitInstr(fr *frame, instr ssa.Instruction) continuation 
 				r = append(r, v)
 			}
 		}
-		fr.env[instr] = r
+		fr.set(instr, r)
 
 	default:
 		panic(fmt.Sprintf("unexpected instruction: %T", instr))
@@ -601,18 +606,19 @@ func (i *interpreter) callSSA(caller *frame, callpos token.Pos, fn *ssa.Function
 		panic("generic function body not instantiated: " + fn.String())
 	}
 
-	fr.env = make(map[ssa.Value]value, 16)
+	fr.slots = info.slotsOf(fn)
+	fr.env = make([]value, len(fr.slots))
 	fr.block = fn.Blocks[0]
 	fr.locals = make([]value, len(fn.Locals))
 	for k, l := range fn.Locals {
 		fr.locals[k] = zero(mustDeref(l.Type()))
-		fr.env[l] = &fr.locals[k]
+		fr.set(l, &fr.locals[k])
 	}
 	for k, p := range fn.Params {
-		fr.env[p] = args[k]
+		fr.set(p, args[k])
 	}
 	for k, fv := range fn.FreeVars {
-		fr.env[fv] = env[k]
+		fr.set(fv, env[k])
 	}
 	if fr.g != nil {
 		fr.g.top = fr
@@ -673,7 +679,7 @@ func executePhis(fr *frame) []ssa.Instruction {
 			fr.phitemps = append(fr.phitemps, fr.get(phi.Edges[predIndex]))
 		}
 		for k, phi := range phis {
-			fr.env[phi.(*ssa.Phi)] = fr.phitemps[k]
+			fr.set(phi.(*ssa.Phi), fr.phitemps[k])
 		}
 	}
 	return nonPhis
